@@ -203,7 +203,9 @@ CLAIMS = {
               "lengths) are distinct and non-zero for blech32 and blech32m, so no one- or two-character corruption of the data part maps a "
               "codeword to a codeword; no weight<=2 pattern bridges the two residues (version-character changes); the constants equal the "
               "Elements reference and are internally consistent; and the decoder reaches Ok only through the residue comparison over the HRP "
-              "and every data character. The human-readable-part clause is NOT claimed (rejection there is probabilistic)."),
+              "and every data character; the mixed-case test covers every letter of the string, HRP included, so re-casing HRP letters is "
+              "rejected. The rest of the human-readable-part clause (replacing HRP characters by other characters) is NOT claimed: "
+              "rejection there is probabilistic."),
         technique="algebraic distance computation on compiler-evaluated constants + must-pass-through of the residue check",
         design_ref="§4 C17",
         note=("Trusted base: rustc const evaluation; the bech32 crate's polymod engine (dependency); Python integer arithmetic; the MIR dump for the "
